@@ -121,7 +121,8 @@ PROPS = {
         "level_text": "every sync of a generated rollout history is compared with a reference model of the rollout step computed from the pre-state; small rollouts are enumerated exhaustively, larger ones sampled",
         "rule": ("rollout histories: 1-2 (exhaustive) or 1-5 (random) rolling children under RollingInPlace/RollingRecreate x status checks (none, type, type+status, type+status+reason) x default/custom field paths x hook with/without its own Updated condition; "
                  "per step a parent edit (none, revisioned template change, non-revisioned/revisioned 'other' change, scale up/down) and an environment choice per child (healthy, unhealthy, lagging observedGeneration, Ready for another reason, deleted); "
-                 "non-trivial = at least one sync ran with two or more live revisions; distinct = distinct choice sequences"),
+                 "non-trivial = at least one sync ran with two or more live revisions; distinct = distinct choice sequences; "
+                 "plus a generated two-kind family (two rolling child kinds with different strategies, one with status checks: a child of the checked kind on the latest revision turns unhealthy while children of the other kind still wait - nothing may move)"),
         "jobs": [
             {"name": "c07-regress", "pkg": COMPOSITE, "tests": ["TestVerifC07Regressions"]},
             {"name": "c07-exh", "pkg": COMPOSITE, "tests": ["TestVerifC07Exhaustive"], "timeout": {"quick": 900, "thorough": 3400},
@@ -129,6 +130,8 @@ PROPS = {
             {"name": "c07-exh-deletes", "pkg": COMPOSITE, "tests": ["TestVerifC07ExhaustiveDeletes"], "tiers": ["thorough"], "timeout": {"thorough": 3400}, "shards": {"thorough": 14}},
             {"name": "c07-rand", "pkg": COMPOSITE, "tests": ["TestVerifC07Random"],
              "checks": {"quick": 1500, "thorough": 100000}, "shards": {"quick": 6, "thorough": 12}},
+            {"name": "c07-crosskind", "pkg": COMPOSITE, "tests": ["TestVerifC07CrossKind"],
+             "checks": {"quick": 300, "thorough": 20000}, "shards": {"quick": 2, "thorough": 8}},
         ],
     },
     "C08": {
